@@ -1077,28 +1077,32 @@ class _FPCoreCompileInstance(Visitor):
             idx_ctx = { 'precision': 'integer', 'round': 'toZero' }
             idx_ids = [str(self.gensym.fresh('i')) for _ in e.targets]
             idx_binds: list[tuple[str, fpc.Expr]] = []
-            for i, iid in enumerate(idx_ids):
-                if i == 0:
-                    mul_expr = _nary_mul([fpc.Var(id) for id in size_ids[1:]])
-                    idx_expr = fpc.Ctx(idx_ctx, fpc.Div(fpc.Var('k'), mul_expr))
-                elif i == len(size_ids) - 1:
-                    idx_expr = fpc.Ctx(idx_ctx, fpc.Fmod(fpc.Var('k'), fpc.Var(size_ids[i])))
-                else:
-                    mul_expr = _nary_mul([fpc.Var(id) for id in size_ids[1:]])
-                    idx_expr = fpc.Ctx(idx_ctx, fpc.Fmod(fpc.Div(fpc.Var('k'), mul_expr), fpc.Var(size_ids[i])))
-                idx_binds.append((iid, idx_expr))
             # iteration variable
             iter_ctx = { 'precision': 'integer'}
             iter_id = str(self.gensym.fresh('k'))
+            for i, iid in enumerate(idx_ids):
+                # index into the i-th iterable: (k / (n_{i+1} * ...)) mod n_i
+                if i == 0:
+                    mul_expr = _nary_mul([fpc.Var(id) for id in size_ids[1:]])
+                    idx_expr = fpc.Ctx(idx_ctx, fpc.Div(fpc.Var(iter_id), mul_expr))
+                elif i == len(size_ids) - 1:
+                    idx_expr = fpc.Ctx(idx_ctx, fpc.Fmod(fpc.Var(iter_id), fpc.Var(size_ids[i])))
+                else:
+                    mul_expr = _nary_mul([fpc.Var(id) for id in size_ids[i + 1:]])
+                    idx_expr = fpc.Ctx(idx_ctx, fpc.Fmod(
+                        fpc.Ctx(idx_ctx, fpc.Div(fpc.Var(iter_id), mul_expr)), fpc.Var(size_ids[i])))
+                idx_binds.append((iid, idx_expr))
             iter_expr = fpc.Ctx(iter_ctx, _nary_mul([fpc.Var(sid) for sid in size_ids]))
             # reference variables
             ref_binds: list[tuple[str, fpc.Expr]] = []
             for target, tid, iid in zip(e.targets, tuple_ids, idx_ids):
                 match target:
                     case NamedId():
-                        ref_id = str(self.gensym.refresh(target))
-                        ref_bind = (ref_id, fpc.Ref(fpc.Var(tid), fpc.Var(iid)))
+                        # the element expression refers to the target by its own name
+                        ref_bind = (str(target), fpc.Ref(fpc.Var(tid), fpc.Var(iid)))
                         ref_binds.append(ref_bind)
+                    case UnderscoreId():
+                        pass
                     case TupleBinding():
                         ref_binds += self._compile_tuple_binding(tid, target, [fpc.Var(iid)])
             # element expression
